@@ -232,6 +232,19 @@ Lemma best_effort_leaves_stale :
   snd r = true /\ filter (is_dup [1]) (fst r) = [ex_old; ex_new].
 Proof. vm_compute. split; reflexivity. Qed.
 
+(* ------------------------------------------------------------------ key file modes *)
+Lemma private_file_mode existing umask : others_bits (write_private existing umask) = 0%N.
+Proof.
+  unfold others_bits, write_private, write_file. destruct existing as [m|]; [reflexivity|].
+  apply N.bits_inj_0. intro n. rewrite N.land_spec, N.ldiff_spec.
+  assert (H : (N.testbit 384 n && N.testbit 63 n)%bool = false).
+  { rewrite <- N.land_spec. change (N.land 384 63) with 0%N. apply N.bits_0. }
+  destruct (N.testbit 384 n), (N.testbit 63 n), (N.testbit umask n); simpl in *; congruence.
+Qed.
+
+Lemma plain_write_keeps_mode : others_bits (write_file (Some 420%N) 18 384) <> 0%N.
+Proof. vm_compute. discriminate. Qed.
+
 (* ================================================================== offered and accepted *)
 
 (* the statement about key types in terms of its parts *)
